@@ -1,9 +1,9 @@
-(* C11 / kernel K16: vocabulary and semantics of the code that UnionUnpackerBuilder._add_body emits.
+(* C11 / kernel K19: vocabulary and semantics of the code that UnionUnpackerBuilder._add_body emits.
 
-   The emission loop of unpack.py is translated to Gallina on every run (coq/gen/K16.v,
-   tools/kernels/k16_union_emit.py): it maps the union's members -- abstracted to what the loop looks
+   The emission loop of unpack.py is translated to Gallina on every run (coq/gen/K19.v,
+   tools/kernels/k19_union_emit.py): it maps the union's members -- abstracted to what the loop looks
    at: is the unpacker TypeMatchEligible, is it the expression "value", which expression is it --
-   to a list of abstract lines.  This file gives those lines a meaning; K16Proofs.v proves that the
+   to a list of abstract lines.  This file gives those lines a meaning; K19Proofs.v proves that the
    emitted program computes UnionModel.union_dec. *)
 From Coq Require Import List Bool Arith.
 From Verif Require Import UnionModel.
